@@ -38,6 +38,13 @@ AtomsSmall ==
     A({0}, {102}, 50000)>>                 \* 9: the same output commitment as atom 2, disjoint input and kernel
 SubsSmall == {{a} : a \in 1..9} \cup {{1, 2}, {1, 3}, {2, 6}}     \* {2, 6}: over-payer + under-payer, 51000 >= 50000
 
+\* output commitments created by more than one atom, their creators and spenders (Pool.tla checks them against Atoms)
+DupFull == {102, 126}
+DupCreatorsFull == [c \in {102, 126} |-> IF c = 102 THEN {2, 20} ELSE {16, 21}]
+DupSpendersFull == [c \in {102, 126} |-> IF c = 102 THEN {4} ELSE {17}]
+DupSmall == {102}
+DupCreatorsSmall == [c \in {102} |-> {2, 9}]
+DupSpendersSmall == [c \in {102} |-> {4}]
 CONSTANTS MaxBlockTxs, MaxReorgDepth, SimProfile
 
 VARIABLES hist, script
